@@ -160,7 +160,7 @@ func (n *decoratorNode) Call(s containerStore) (err error) {
 
 	results := s.invoker()(reflect.ValueOf(n.dcor), args)
 	if err = n.results.ExtractList(n.s, true /* decorated */, results); err != nil {
-		return err
+		return errDecoratorFailed{Reason: err}
 	}
 	n.state = decoratorCalled
 	return nil
